@@ -9,6 +9,7 @@ import (
 	"fmt"
 	"hash/fnv"
 	"os"
+	"os/exec"
 	"path/filepath"
 	"runtime"
 	"runtime/debug"
@@ -27,7 +28,7 @@ import (
 type Outcome struct {
 	Class      string         `json:"class,omitempty"` // "" = property held; else violation class "Cxx/what"
 	Msg        string         `json:"msg,omitempty"`
-	Skip       string         `json:"skip,omitempty"` // non-empty: generator precondition not met; run not counted
+	Skip       string         `json:"skip,omitempty"`  // non-empty: generator precondition not met; run not counted
 	Infra      string         `json:"infra,omitempty"` // non-empty: harness/generator trouble (exit 2)
 	Nontrivial bool           `json:"nontrivial"`
 	ScenHash   uint64         `json:"scen_hash"`
@@ -134,36 +135,38 @@ type Violation struct {
 }
 
 type Summary struct {
-	Prop        string             `json:"prop"`
-	Runs        int                `json:"runs"`
-	Skipped     int                `json:"skipped"`
-	Abandoned   int                `json:"abandoned"`
-	Nontrivial  int                `json:"nontrivial"`
-	Steps       int64              `json:"steps"`
-	Switches    int64              `json:"switches"`
-	SimTimeNs   int64              `json:"sim_time_ns"`
-	GNSSWeeks   float64            `json:"gnss_weeks"`
-	Probes      map[string]int     `json:"probes"`
-	Faults      map[string]int     `json:"faults"`
-	FaultRuns   map[string]int     `json:"fault_runs"`
-	Strategies  map[string]int     `json:"strategies"`
-	Verdicts    map[string]int     `json:"verdicts"`
-	Samples     []*Outcome         `json:"samples"`
-	Violations  []Violation        `json:"violations"`
-	ClassCounts map[string]int     `json:"class_counts"`
-	Infra       []string           `json:"infra"`
-	NonDet      []string           `json:"nondeterminism"`
+	Prop        string         `json:"prop"`
+	Runs        int            `json:"runs"`
+	Skipped     int            `json:"skipped"`
+	Abandoned   int            `json:"abandoned"`
+	Nontrivial  int            `json:"nontrivial"`
+	Steps       int64          `json:"steps"`
+	Switches    int64          `json:"switches"`
+	SimTimeNs   int64          `json:"sim_time_ns"`
+	GNSSWeeks   float64        `json:"gnss_weeks"`
+	Probes      map[string]int `json:"probes"`
+	Faults      map[string]int `json:"faults"`
+	FaultRuns   map[string]int `json:"fault_runs"`
+	Strategies  map[string]int `json:"strategies"`
+	Verdicts    map[string]int `json:"verdicts"`
+	Samples     []*Outcome     `json:"samples"`
+	Violations  []Violation    `json:"violations"`
+	ClassCounts map[string]int `json:"class_counts"`
+	Infra       []string       `json:"infra"`
+	NonDet      []string       `json:"nondeterminism"`
 	// determinism spot checks that diverged at a select statement of the code
 	// under test where the Go runtime, not the tape, picks among ready cases
 	NonDetSelect   int      `json:"nondeterminism_runtime_select"`
 	NonDetSelectAt []string `json:"nondeterminism_runtime_select_at"`
-	DetChecked  int                `json:"determinism_checked"`
-	DetFailed   int                `json:"determinism_failed"`
-	MaxSteps    int                `json:"max_steps"`
-	WallS       float64            `json:"wall_s"`
-	HashFile    string             `json:"hash_file"`
-	DistinctSch int                `json:"distinct_schedules"`
-	Extra       map[string]float64 `json:"extra,omitempty"`
+	// ... that two fresh processes do not show: process-global state of the code under test
+	NonDetHistory int                `json:"nondeterminism_process_history"`
+	DetChecked    int                `json:"determinism_checked"`
+	DetFailed     int                `json:"determinism_failed"`
+	MaxSteps      int                `json:"max_steps"`
+	WallS         float64            `json:"wall_s"`
+	HashFile      string             `json:"hash_file"`
+	DistinctSch   int                `json:"distinct_schedules"`
+	Extra         map[string]float64 `json:"extra,omitempty"`
 }
 
 func envInt(name string, def int64) int64 {
@@ -270,7 +273,11 @@ func runOne(t *testing.T, p *Prop, tape *rt.Tape, tier string, detail bool, idx 
 	}
 	o := res.out
 	h := fnv.New64a()
+	o.SimTime = 0
 	for _, s := range ctx.sims {
+		if d := s.Active - s.Lead; d > 0 {
+			o.SimTime += d
+		}
 		o.Steps += s.Steps
 		o.Switches += s.Switches
 		var b [8]byte
@@ -329,6 +336,31 @@ func selectDivergence(t *testing.T, p *Prop, rs uint64, tier string, idx uint64)
 		}
 	}
 	return ""
+}
+
+// historyDependent runs the tape once in each of two fresh processes (this
+// test binary, VSIM_MODE=hash).  If the two agree, a divergence seen inside a
+// long-lived worker comes from state the code under test carried over from
+// earlier runs of the process, not from the simulation.
+func historyDependent(p *Prop, rs uint64, tier string, idx uint64) bool {
+	var got [2]string
+	for i := range got {
+		cmd := exec.Command(os.Args[0], "-test.run", "^TestVsim$", "-test.timeout", "10m")
+		cmd.Env = append(os.Environ(), "VSIM_MODE=hash", "VSIM_RUN_SEED="+strconv.FormatUint(rs, 10), "VSIM_RUN_IDX="+strconv.FormatUint(idx, 10), "VSIM_PROP="+p.ID, "VSIM_TIER="+tier)
+		b, err := cmd.Output()
+		if err != nil {
+			return false
+		}
+		for _, line := range strings.Split(string(b), "\n") {
+			if strings.HasPrefix(line, "EVENTHASH ") {
+				got[i] = line
+			}
+		}
+		if got[i] == "" || got[i] == "EVENTHASH none" {
+			return false
+		}
+	}
+	return got[0] == got[1]
 }
 
 func collapse(tr []string) []string {
@@ -398,6 +430,16 @@ func Main(t *testing.T, props ...*Prop) {
 	switch os.Getenv("VSIM_MODE") {
 	case "replay":
 		replay(t, p, tier)
+	case "hash":
+		// one run of one tape in this fresh process: print the event-log hash
+		rs, _ := strconv.ParseUint(os.Getenv("VSIM_RUN_SEED"), 10, 64)
+		idx := uint64(envInt("VSIM_RUN_IDX", 0))
+		r := runOne(t, p, rt.NewGenTape(rs), tier, false, idx)
+		if r.out == nil {
+			fmt.Println("EVENTHASH none")
+		} else {
+			fmt.Printf("EVENTHASH %x %s\n", r.out.EventHash, r.out.Class)
+		}
 	default:
 		explore(t, p, tier)
 	}
@@ -524,6 +566,17 @@ func explore(t *testing.T, p *Prop, tier string) {
 					// select?  That choice is outside the tape (documented blind spot):
 					// the run is still a legal execution, it just does not replay.  Find
 					// two traced reruns that differ and look at the first difference.
+					if historyDependent(p, rs, tier, idx) {
+						// The event log of this tape depends on what the process ran before:
+						// the code under test keeps state in package variables (a cache, a
+						// pool, a "seen before" flag).  Two fresh processes agree with each
+						// other, so the simulation itself is deterministic; the run is judged
+						// like any other (whether the OUTPUT depends on the history is what
+						// the oracles of the property decide, not this).
+						sum.NonDetHistory++
+						sum.Probes["event-log-depends-on-process-history"]++
+						goto classified
+					}
 					if sel := selectDivergence(t, p, rs, tier, idx); sel != "" {
 						sum.NonDetSelect++
 						if len(sum.NonDetSelectAt) < 5 {
